@@ -11,63 +11,66 @@ Open Scope N_scope.
       version are the real texts iff the SENDER's two switches are on, the denied markers otherwise.
       Guard: the record path is taken (see 1b/1c for the fast path); the class exists at the receiver under the same name
       and its __new__ needs no arguments. *)
-Theorem c09_builtin_fidelity : forall P fS fR E ver tb e n,
+Theorem c09_builtin_fidelity : forall M P fS fR E ver tb e n,
   e_cls e = Builtin n -> args_entries (e_dir e) = 1%nat ->
   assoc n (builtins_ns E) = Some (AExc (Builtin n) true) ->
   routed fS (e_cls e) = false ->
   fast_taken P e = false ->
   exists payload, serve_exc P fS ver tb e = Sent payload /\
-  vload fR E payload =
+  vload M fR E payload =
     ([ENew (Real (Builtin n))],
      Ok (LExc (Real (Builtin n)) (PTuple (map norm (e_args e)))
               (map set_of (public_attrs (e_dir e) ++ [(REMOTE_VERSION, PStr (if incl_ver fS then ver else DENIED_VER))]))
               (Done (PStr (if incl_tb fS then tb else DENIED_TB)) (version_warn fS E ver)))).
 Proof.
-  intros P fS fR E ver tb e n HC HA HB HR HF. exists (vdump P fS ver tb e). split; [now apply serve_not_routed|].
-  exact (builtin_fidelity_slow P fS fR E ver tb e n HC HA HB HF).
+  intros M P fS fR E ver tb e n HC HA HB HR HF. exists (vdump P fS ver tb e). split; [now apply serve_not_routed|].
+  exact (builtin_fidelity_slow M P fS fR E ver tb e n HC HA HB HF).
 Qed.
 Print Assumptions c09_builtin_fidelity.
 
 (* 1b. the obligation after the repair: when the fast path is guarded by "no arguments" (generated fact), class and
        arguments of EVERY built-in exception, StopIteration included, arrive intact on whichever path *)
-Theorem c09_builtin_class_and_args : forall P fS fR E ver tb e n,
+Theorem c09_builtin_class_and_args : forall M P fS fR E ver tb e n,
   fast_noargs_only P = true ->
   e_cls e = Builtin n -> args_entries (e_dir e) = 1%nat ->
   assoc n (builtins_ns E) = Some (AExc (Builtin n) true) ->
-  arrived (vload fR E (vdump P fS ver tb e)) = Some (Builtin n, PTuple (map norm (e_args e))).
+  arrived (vload M fR E (vdump P fS ver tb e)) = Some (Builtin n, PTuple (map norm (e_args e))).
 Proof. exact builtin_class_args_preserved. Qed.
 Print Assumptions c09_builtin_class_and_args.
 
 (* 1c. on a tree whose fast path is unconditional, StopIteration("x") meets every hypothesis of 1b except the generated
        guard and arrives with args == ()  (finding F9) *)
-Theorem c09_builtin_fidelity_refuted : forall P fS fR E ver tb, fast_noargs_only P = false ->
+Theorem c09_builtin_fidelity_refuted : forall M P fS fR E ver tb, fast_noargs_only P = false ->
   exists e, e_cls e = Builtin STOP_ITERATION /\ args_entries (e_dir e) = 1%nat /\ routed fS (e_cls e) = false /\
     map norm (e_args e) = [PStr (txt "x")] /\
-    arrived (vload fR E (vdump P fS ver tb e)) = Some (Builtin STOP_ITERATION, PTuple []).
+    arrived (vload M fR E (vdump P fS ver tb e)) = Some (Builtin STOP_ITERATION, PTuple []).
 Proof.
-  intros P fS fR E ver tb HP. exists stop_x. split; [reflexivity|].
-  exact (builtin_fidelity_refuted P fS fR E ver tb HP).
+  intros M P fS fR E ver tb HP. exists stop_x. split; [reflexivity|].
+  exact (builtin_fidelity_refuted M P fS fR E ver tb HP).
 Qed.
 Print Assumptions c09_builtin_fidelity_refuted.
 
 (* 2. a class outside builtins: the real class is rebuilt exactly when the receiver instantiates custom exceptions AND the
       module is present (already imported, or importable AND the receiver imports custom exceptions) AND the attribute is
-      a BaseException subclass; otherwise a generic stand-in named after the original; an import is attempted iff
-      import_custom is on and the module is not loaded yet *)
-Theorem c09_custom_gating : forall fR E m n args l fS ver tb,
-  text_eqb m BUILTINS = false -> name_ok m n -> snd (expected_class fR E m n) = true ->
-  vload fR E (record m n args (l ++ [version_attr fS ver]) (tb_field fS tb)) =
-    (import_effects fR E m ++ [ENew (fst (expected_class fR E m n))],
-     Ok (LExc (fst (expected_class fR E m n)) (PTuple args) (map set_of (l ++ [version_attr fS ver]))
+      a BaseException subclass -- found in the module's namespace, or handed out by the module's __getattr__ hook (PEP 562)
+      when the lookup consults it ([hooks_run], a generated fact of the tree); otherwise a generic stand-in named after the
+      original.  Effects: the guarded import (iff import_custom is on and the module is not loaded), then the imports of a
+      consulted hook, then exactly one __new__. *)
+Theorem c09_custom_gating : forall M fR E m n args l fS ver tb,
+  text_eqb m BUILTINS = false -> name_ok m n -> snd (expected_class M fR E m n) = true ->
+  vload M fR E (record m n args (l ++ [version_attr fS ver]) (tb_field fS tb)) =
+    (import_effects M fR E m n ++ [ENew (fst (expected_class M fR E m n))],
+     Ok (LExc (fst (expected_class M fR E m n)) (PTuple args) (map set_of (l ++ [version_attr fS ver]))
               (Done (tb_field fS tb) (version_warn fS E ver)))).
 Proof. exact custom_gating. Qed.
 Print Assumptions c09_custom_gating.
 
-Theorem c09_custom_real_iff : forall fR E m n c, text_eqb m BUILTINS = false ->
-  fst (expected_class fR E m n) = Real c <->
+Theorem c09_custom_real_iff : forall M fR E m n c, text_eqb m BUILTINS = false ->
+  fst (expected_class M fR E m n) = Real c <->
   inst_custom fR = true /\
   exists x, (assoc m (modules E) = Some x \/ (assoc m (modules E) = None /\ import_custom fR = true /\ assoc m (importable E) = Some x))
-            /\ exists ok, assoc n x = Some (AExc c ok).
+            /\ exists ok, assoc n x = Some (AExc c ok) \/
+                          (hooks_run M fR = true /\ exists imps, assoc n x = Some (ALazy imps (Some (c, ok)))).
 Proof. exact custom_real_iff. Qed.
 Print Assumptions c09_custom_real_iff.
 
@@ -79,43 +82,66 @@ Proof.
 Qed.
 Print Assumptions c09_custom_record.
 
-(* 3. safety for EVERY payload (genuine record or not): no import unless import_custom is on (and then only of a module
-      that is not loaded), no constructor ever, at most one __new__, and with instantiate_custom off the only real classes
-      instantiated are exception classes of the builtins namespace *)
-Theorem c09_safe_any_payload : forall fR E payload,
-  (forall m, In (EImport m) (fst (vload fR E payload)) -> import_custom fR = true /\ in_modules E (modules E) (PStr m) = false) /\
-  (forall c, ~ In (EInit c) (fst (vload fR E payload))) /\
-  (inst_custom fR = false -> forall c, In (ENew (Real c)) (fst (vload fR E payload)) ->
+(* 3. safety for EVERY payload (genuine record or not), every environment and every setting of the switches:
+      (a) an import happens only in two ways: the guarded __import__ (import_custom on, module not loaded yet), or inside a
+          module-level __getattr__ hook of an already loaded module that the sys.modules lookup consulted (instantiate_custom on
+          and [hooks_run]);
+      (b) no constructor ever, (c) with instantiate_custom off the only real classes instantiated are exception classes of
+          the builtins namespace, (d) at most one __new__ *)
+Theorem c09_safe_any_payload : forall M fR E payload,
+  (forall m, In (EImport m) (fst (vload M fR E payload)) ->
+     (import_custom fR = true /\ in_modules E (modules E) (PStr m) = false) \/ (hooks_run M fR = true /\ inst_custom fR = true)) /\
+  (forall c, ~ In (EInit c) (fst (vload M fR E payload))) /\
+  (inst_custom fR = false -> forall c, In (ENew (Real c)) (fst (vload M fR E payload)) ->
       exists n ok, assoc n (builtins_ns E) = Some (AExc c ok)) /\
-  (List.length (filter (fun x => match x with ENew _ => true | _ => false end) (fst (vload fR E payload))) <= 1)%nat.
+  (List.length (filter (fun x => match x with ENew _ => true | _ => false end) (fst (vload M fR E payload))) <= 1)%nat.
 Proof.
-  intros fR E v. repeat split.
-  - now apply no_import_unless_allowed in H.
-  - now apply no_import_unless_allowed in H.
+  intros M fR E v. split; [|split; [|split]].
+  - intros m. apply import_only_two_ways.
   - apply never_init.
   - intros H c. now apply new_only_builtin.
   - apply at_most_one_new.
 Qed.
 Print Assumptions c09_safe_any_payload.
 
-(* 3'. the switches of the current tree's DEFAULT_CONFIG (regenerated) are the safe ones *)
-Theorem c09_safe_default_config : forall E payload,
-  (forall m, ~ In (EImport m) (fst (vload default_rflags E payload))) /\
-  (forall c, ~ In (EInit c) (fst (vload default_rflags E payload))) /\
-  (forall c, In (ENew (Real c)) (fst (vload default_rflags E payload)) -> exists n ok, assoc n (builtins_ns E) = Some (AExc c ok)).
+(* 3a. the property's clause "import only if the receiver's configuration allows importing", for every payload: it holds on a
+       tree whose lookup consults module hooks only when importing is allowed (generated fact [mode_safe Mgen]) ... *)
+Theorem c09_no_import_without_switch : forall M fR E payload m, mode_safe M = true ->
+  In (EImport m) (fst (vload M fR E payload)) -> import_custom fR = true.
+Proof. exact no_import_unless_allowed. Qed.
+Print Assumptions c09_no_import_without_switch.
+
+(* 3b. ... and fails on a tree that reads the class with getattr(module, name, None): with instantiate_custom on and
+       import_custom OFF, a payload naming an attribute that a loaded module serves through __getattr__ makes the receiver
+       import (finding: import-without-switch:module-getattr-hook); the same payload imports nothing under the repaired lookup *)
+Theorem c09_no_import_without_switch_refuted : forall M, mode_safe M = false ->
+  exists fR E payload m, import_custom fR = false /\ inst_custom fR = true /\
+    In (EImport m) (fst (vload M fR E payload)) /\ ~ In (EImport m) (fst (vload LkDictUnlessImport fR E payload)).
 Proof.
-  intros E v. destruct (c09_safe_any_payload default_rflags E v) as (A & B & C & _). repeat split.
-  - intros m H. apply A in H as [H _]. discriminate H.
+  intros M HM. destruct M; try discriminate HM.
+  destruct no_import_refuted as (fR & E & v & m & A & B & C & D). exists fR, E, v, m. auto.
+Qed.
+Print Assumptions c09_no_import_without_switch_refuted.
+
+(* 3'. under the switches of the current tree's DEFAULT_CONFIG (regenerated) nothing is imported, whatever the lookup form:
+       the sys.modules lookup is not reached *)
+Theorem c09_safe_default_config : forall M E payload,
+  (forall m, ~ In (EImport m) (fst (vload M default_rflags E payload))) /\
+  (forall c, ~ In (EInit c) (fst (vload M default_rflags E payload))) /\
+  (forall c, In (ENew (Real c)) (fst (vload M default_rflags E payload)) -> exists n ok, assoc n (builtins_ns E) = Some (AExc c ok)).
+Proof.
+  intros M E v. destruct (c09_safe_any_payload M default_rflags E v) as (A & B & C & _). repeat split.
+  - intros m H. apply A in H as [[H _]|[_ H]]; discriminate H.
   - exact B.
   - apply C. reflexivity.
 Qed.
 Print Assumptions c09_safe_default_config.
 
 (* 4. the StopIteration fast path, both directions on both sides *)
-Theorem c09_stopiteration_fastpath : forall P fS fR E ver tb e v,
+Theorem c09_stopiteration_fastpath : forall M P fS fR E ver tb e v,
   (vdump P fS ver tb e = PInt EXC_STOP <-> fast_taken P e = true) /\
-  (snd (vload fR E v) = Ok LStop <-> py_eq_one v = true) /\
-  (fast_taken P e = true -> vload fR E (vdump P fS ver tb e) = ([], Ok LStop)) /\
+  (snd (vload M fR E v) = Ok LStop <-> py_eq_one v = true) /\
+  (fast_taken P e = true -> vload M fR E (vdump P fS ver tb e) = ([], Ok LStop)) /\
   (fast_taken P e = true -> e_cls e = Builtin STOP_ITERATION /\ (fast_noargs_only P = true -> e_args e = [])).
 Proof.
   intros. repeat split; try apply fastpath_dump; try apply fastpath_load; try apply fastpath_roundtrip; try assumption;
@@ -187,14 +213,14 @@ Definition R (i c : bool) : rflags := {| import_custom := i; inst_custom := c; i
 Example c09_fidelity_hypotheses_met :
   args_entries (e_dir verr) = 1%nat /\ assoc (T "ValueError") (builtins_ns E0) = Some (AExc (Builtin (T "ValueError")) true) /\
   routed off (e_cls verr) = false /\ fast_taken Pgen verr = false /\
-  vload (R false false) E0 (vdump Pgen on (T "4.0.0") (T "Traceback..") verr) =
+  vload Mgen (R false false) E0 (vdump Pgen on (T "4.0.0") (T "Traceback..") verr) =
     ([ENew (Real (Builtin (T "ValueError")))],
      Ok (LExc (Real (Builtin (T "ValueError")))
               (PTuple [PInt 7; PStr (T "[1, 2]"); PTuple [PStr (T "a"); PNone]; PStr (T "(1, [])")])
               [(PStr (T "add_note"), PStr (T "<built-in method add_note>")); (PStr (T "errno"), PInt 2);
                (PStr (T "payload"), PStr (T "{'k': 1}")); (PStr (T "_remote_version"), PStr (T "4.0.0"))]
               (Done (PStr (T "Traceback..")) true))) /\
-  vload (R true true) E0 (vdump Pgen off (T "4.0.0") (T "Traceback..") verr) =
+  vload Mgen (R true true) E0 (vdump Pgen off (T "4.0.0") (T "Traceback..") verr) =
     ([ENew (Real (Builtin (T "ValueError")))],
      Ok (LExc (Real (Builtin (T "ValueError")))
               (PTuple [PInt 7; PStr (T "[1, 2]"); PTuple [PStr (T "a"); PNone]; PStr (T "(1, [])")])
@@ -207,27 +233,27 @@ Proof. vm_compute. repeat split. Qed.
 Definition rec0 (m n : string) : pyval := record (T m) (T n) [PInt 1] ([] ++ [version_attr on (T "5.0.1")]) (tb_field on (T "tb")).
 Definition cls_of (r : list effect * result lres) : option rcls := match snd r with Ok (LExc c _ _ _) => Some c | _ => None end.
 Example c09_gating_matrix :
-  map (fun f => (fst (vload f E0 (rec0 "mymod" "Foo")), cls_of (vload f E0 (rec0 "mymod" "Foo")))) [R false false; R true false; R false true; R true true] =
+  map (fun f => (fst (vload Mgen f E0 (rec0 "mymod" "Foo")), cls_of (vload Mgen f E0 (rec0 "mymod" "Foo")))) [R false false; R true false; R false true; R true true] =
     [([ENew (Generic (PStr (T "mymod")) (PStr (T "Foo")))], Some (Generic (PStr (T "mymod")) (PStr (T "Foo"))));
      ([ENew (Generic (PStr (T "mymod")) (PStr (T "Foo")))], Some (Generic (PStr (T "mymod")) (PStr (T "Foo"))));
      ([ENew (Real (Custom (T "mymod") (T "Foo")))], Some (Real (Custom (T "mymod") (T "Foo"))));
      ([ENew (Real (Custom (T "mymod") (T "Foo")))], Some (Real (Custom (T "mymod") (T "Foo"))))] /\
-  map (fun f => (fst (vload f E0 (rec0 "lazy" "Bar")), cls_of (vload f E0 (rec0 "lazy" "Bar")))) [R false false; R true false; R false true; R true true] =
+  map (fun f => (fst (vload Mgen f E0 (rec0 "lazy" "Bar")), cls_of (vload Mgen f E0 (rec0 "lazy" "Bar")))) [R false false; R true false; R false true; R true true] =
     [([ENew (Generic (PStr (T "lazy")) (PStr (T "Bar")))], Some (Generic (PStr (T "lazy")) (PStr (T "Bar"))));
      ([EImport (T "lazy"); ENew (Generic (PStr (T "lazy")) (PStr (T "Bar")))], Some (Generic (PStr (T "lazy")) (PStr (T "Bar"))));
      ([ENew (Generic (PStr (T "lazy")) (PStr (T "Bar")))], Some (Generic (PStr (T "lazy")) (PStr (T "Bar"))));
      ([EImport (T "lazy"); ENew (Real (Custom (T "lazy") (T "Bar")))], Some (Real (Custom (T "lazy") (T "Bar"))))] /\
-  map (fun f => cls_of (vload f E0 (rec0 "nosuch" "X"))) [R false false; R true true] =
+  map (fun f => cls_of (vload Mgen f E0 (rec0 "nosuch" "X"))) [R false false; R true true] =
     [Some (Generic (PStr (T "nosuch")) (PStr (T "X"))); Some (Generic (PStr (T "nosuch")) (PStr (T "X")))] /\
-  map (fun f => cls_of (vload f E0 (rec0 "mymod" "helper"))) [R false false; R true true] =
+  map (fun f => cls_of (vload Mgen f E0 (rec0 "mymod" "helper"))) [R false false; R true true] =
     [Some (Generic (PStr (T "mymod")) (PStr (T "helper"))); Some (Generic (PStr (T "mymod")) (PStr (T "helper")))] /\
-  name_ok (T "mymod") (T "Foo") /\ snd (expected_class (R true true) E0 (T "lazy") (T "Bar")) = true /\
+  name_ok (T "mymod") (T "Foo") /\ snd (expected_class Mgen (R true true) E0 (T "lazy") (T "Bar")) = true /\
   text_eqb (T "mymod") BUILTINS = false.
 Proof. vm_compute. repeat split. Qed.
 
 (* hostile payloads under the default switches: outcomes differ, effects never contain an import *)
 Example c09_hostile_samples :
-  map (fun v => vload default_rflags E0 v)
+  map (fun v => vload Mgen default_rflags E0 v)
     [PInt 1; PBool true; PFloat ONE_BITS; PInt 2; PStr (T "boom"); PBytes [x61; x62; x63; x64]; PTuple [PInt 1; PInt 2; PInt 3];
      PTuple [PStr (T "ab"); PTuple []; PTuple []; PStr (T "tb")];
      PTuple [PTuple [PStr (T "builtins"); PStr (T "int")]; PTuple []; PTuple []; PStr (T "tb")];
@@ -249,8 +275,8 @@ Proof. vm_compute. reflexivity. Qed.
 
 (* F9 witness and the repaired behaviour side by side *)
 Example c09_stopiteration_witness :
-  arrived (vload (R false false) E0 (vdump {| fast_noargs_only := false |} on (T "5.0.1") (T "tb") stop_x)) = Some (Builtin STOP_ITERATION, PTuple []) /\
-  arrived (vload (R false false) E0 (vdump {| fast_noargs_only := true |} on (T "5.0.1") (T "tb") stop_x)) = Some (Builtin STOP_ITERATION, PTuple [PStr (T "x")]) /\
+  arrived (vload Mgen (R false false) E0 (vdump {| fast_noargs_only := false |} on (T "5.0.1") (T "tb") stop_x)) = Some (Builtin STOP_ITERATION, PTuple []) /\
+  arrived (vload Mgen (R false false) E0 (vdump {| fast_noargs_only := true |} on (T "5.0.1") (T "tb") stop_x)) = Some (Builtin STOP_ITERATION, PTuple [PStr (T "x")]) /\
   assoc STOP_ITERATION (builtins_ns E0) = Some (AExc (Builtin STOP_ITERATION) true).
 Proof. vm_compute. repeat split. Qed.
 
@@ -259,3 +285,28 @@ Example c09_disclosure_witness :
   vdump Pgen on (T "5.0.1") (T "secret traceback") verr <> vdump Pgen on (T "5.0.1") (T "other") verr /\
   routed off (Builtin SYSTEM_EXIT) = true /\ routed on (Builtin SYSTEM_EXIT) = false.
 Proof. vm_compute. repeat split. discriminate. Qed.
+
+(* a loaded module with a __getattr__ hook: what each lookup form does under the four receiver switch settings.
+   LkGetattr (pinned tree): with instantiate_custom on, "dep" is imported even when import_custom is off;
+   LkDictUnlessImport (repaired): the hook is consulted only when both switches are on *)
+Definition E1 : env :=
+  {| builtins_ns := builtins_ns E0;
+     modules := [(T "hookmod", [(T "Plain", AExc (Custom (T "hookmod") (T "Plain")) true);
+                                (T "Lazy", ALazy [T "dep"] (Some (Custom (T "dep") (T "Exc"), true)));
+                                (T "LazyOther", ALazy [T "dep"; T "dep2"] None)])];
+     importable := []; local_major := T "5" |}.
+Example c09_module_hook_matrix :
+  map (fun f => fst (vload LkGetattr f E1 (rec0 "hookmod" "Lazy"))) [R false false; R true false; R false true; R true true] =
+    [[ENew (Generic (PStr (T "hookmod")) (PStr (T "Lazy")))]; [ENew (Generic (PStr (T "hookmod")) (PStr (T "Lazy")))];
+     [EImport (T "dep"); ENew (Real (Custom (T "dep") (T "Exc")))]; [EImport (T "dep"); ENew (Real (Custom (T "dep") (T "Exc")))]] /\
+  map (fun f => fst (vload LkDictUnlessImport f E1 (rec0 "hookmod" "Lazy"))) [R false false; R true false; R false true; R true true] =
+    [[ENew (Generic (PStr (T "hookmod")) (PStr (T "Lazy")))]; [ENew (Generic (PStr (T "hookmod")) (PStr (T "Lazy")))];
+     [ENew (Generic (PStr (T "hookmod")) (PStr (T "Lazy")))]; [EImport (T "dep"); ENew (Real (Custom (T "dep") (T "Exc")))]] /\
+  fst (vload LkGetattr (R false true) E1 (rec0 "hookmod" "LazyOther")) =
+    [EImport (T "dep"); EImport (T "dep2"); ENew (Generic (PStr (T "hookmod")) (PStr (T "LazyOther")))] /\
+  fst (vload LkDict (R true true) E1 (rec0 "hookmod" "LazyOther")) = [ENew (Generic (PStr (T "hookmod")) (PStr (T "LazyOther")))] /\
+  map (fun M => fst (vload M (R false true) E1 (rec0 "hookmod" "Plain"))) [LkGetattr; LkDictUnlessImport; LkDict] =
+    [[ENew (Real (Custom (T "hookmod") (T "Plain")))]; [ENew (Real (Custom (T "hookmod") (T "Plain")))]; [ENew (Real (Custom (T "hookmod") (T "Plain")))]] /\
+  mode_safe LkDictUnlessImport = true /\ mode_safe LkDict = true /\ mode_safe LkGetattr = false /\
+  text_eqb (T "hookmod") BUILTINS = false /\ name_ok (T "hookmod") (T "Lazy") /\ snd (expected_class LkGetattr (R false true) E1 (T "hookmod") (T "Lazy")) = true.
+Proof. vm_compute. repeat split. Qed.
